@@ -22,6 +22,8 @@ impl SchemaMut {
 		let mut state = WriteCanonicalFormState {
 			w: ErrorConversionWriter(Rabin::default()),
 			named_type_written: vec![false; self.nodes.len()],
+			unnamed_type_being_written: vec![0; self.nodes.len()],
+			n_written_names: 0,
 		};
 		state.write_canonical_form(self, SchemaKey::from_idx(0))?;
 		Ok(state.w.0.finish())
@@ -31,6 +33,18 @@ impl SchemaMut {
 struct WriteCanonicalFormState<W> {
 	w: ErrorConversionWriter<W>,
 	named_type_written: Vec<bool>,
+	/// For the unnamed nodes (array, map, union) we are currently inside of:
+	/// `1 + n_written_names` at the time we (last) entered them, otherwise `0`.
+	///
+	/// Coming across one of them again without having written any new named
+	/// type in full in the meantime means that the schema has a cycle that does
+	/// not go through any named type, which has no canonical form (and would
+	/// otherwise recurse until the stack overflows). If a named type was
+	/// written since, that cycle will end by that name being written as a
+	/// reference, so we can go for another round.
+	unnamed_type_being_written: Vec<u64>,
+	/// Number of named types that we have written in full so far
+	n_written_names: u64,
 }
 
 impl<W: Write> WriteCanonicalFormState<W> {
@@ -47,12 +61,26 @@ impl<W: Write> WriteCanonicalFormState<W> {
 			.get(key.idx)
 			.ok_or_else(|| SchemaError::new("SchemaKey refers to non-existing node"))?;
 
+		let previously_being_written = self.unnamed_type_being_written[key.idx];
+		if matches!(
+			node.type_,
+			RegularType::Union(_) | RegularType::Array(_) | RegularType::Map(_)
+		) {
+			if previously_being_written > self.n_written_names {
+				return Err(SchemaError::new(
+					"Schema contains a cycle that can't be avoided using named references",
+				));
+			}
+			self.unnamed_type_being_written[key.idx] = self.n_written_names + 1;
+		}
+
 		let mut first_time = true;
 		let should_not_write_only_name =
 			|name: &s::Name, state: &mut WriteCanonicalFormState<W>| -> Result<bool, SchemaError> {
 				Ok(match &mut state.named_type_written[key.idx] {
 					b @ false => {
 						*b = true;
+						state.n_written_names += 1;
 						true
 					}
 					true => {
@@ -162,6 +190,7 @@ impl<W: Write> WriteCanonicalFormState<W> {
 				}
 			}
 		}
+		self.unnamed_type_being_written[key.idx] = previously_being_written;
 		Ok(())
 	}
 }
